@@ -496,6 +496,30 @@ func (g *G) finish(ctx []vr, a *Ty) Term {
 	if u := g.unf(a); u.K == KDown && len(ctx) == 1 && key(ctx[0].t) == key(u.L) {
 		return &Cast{To: "self", Cont: ctx[0].n}
 	}
+	// tail axioms of the negative left rules: x.l<self>, send x<y, self>, cast x<self>
+	if g.intn(2) == 1 {
+		if len(ctx) == 1 {
+			u := g.unf(ctx[0].t)
+			if u.K == KWith && !(ctx[0].t.K == KNamed && ctx[0].t.Name == "srv") {
+				for _, b := range u.Brs {
+					if key(b.T) == key(a) {
+						return &Sel{To: ctx[0].n, Label: b.L, Cont: "self"}
+					}
+				}
+			}
+			if u.K == KUp && key(u.L) == key(a) {
+				return &Cast{To: ctx[0].n, Cont: "self"}
+			}
+		}
+		if len(ctx) == 2 {
+			for i := 0; i < 2; i++ {
+				u := g.unf(ctx[i].t)
+				if u.K == KLolli && key(u.L) == key(ctx[1-i].t) && key(u.R) == key(a) {
+					return &Send{To: ctx[i].n, Payload: ctx[1-i].n, Cont: "self"}
+				}
+			}
+		}
+	}
 	// tail call of a definition whose parameters are exactly the context and whose result is a
 	if len(ctx) >= 1 && g.intn(2) == 1 {
 		for _, s := range g.sigs {
@@ -602,7 +626,7 @@ func Generate(intn func(int) int, opt Options) *Program {
 	nf := g.intn(3)
 	for i := 0; i < nf; i++ {
 		np := 1
-		if g.intn(3) == 1 {
+		if g.intn(2) == 1 {
 			np = 2 + g.intn(2)
 		}
 		var params []Param
@@ -614,8 +638,8 @@ func Generate(intn func(int) int, opt Options) *Program {
 				m = g.hi
 			}
 			var t *Ty
-			if j > 0 && g.intn(2) == 1 {
-				t = params[0].T // equal types make argument order observable only through behaviour
+			if j > 0 && g.intn(3) != 0 {
+				t = params[g.intn(j)].T // equal types make argument order observable only through behaviour
 			} else {
 				t = g.randTy(1, m)
 			}
@@ -639,16 +663,23 @@ func Generate(intn func(int) int, opt Options) *Program {
 	nt := g.intn(3)
 	for i := 0; i < nt; i++ {
 		t := g.randTy(2, g.base)
+		// a top-level process may itself be the client of an earlier one
+		var ctx []vr
+		if len(tops) > 0 && g.intn(3) == 1 {
+			j := g.intn(len(tops))
+			ctx = []vr{tops[j]}
+			tops = without(tops, j)
+		}
 		if g.intn(5) == 0 && canSplit(g.base) {
 			a, b := g.fresh("top"), g.fresh("top")
 			g.push()
-			p.Procs = append(p.Procs, &Proc{Names: []string{a, b}, T: t, Body: g.gen(nil, t, 2)})
+			p.Procs = append(p.Procs, &Proc{Names: []string{a, b}, T: t, Body: g.gen(ctx, t, 2)})
 			g.pop()
 			tops = append(tops, vr{a, t}, vr{b, t})
 		} else {
 			a := g.fresh("top")
 			g.push()
-			p.Procs = append(p.Procs, &Proc{Names: []string{a}, T: t, Body: g.gen(nil, t, 2)})
+			p.Procs = append(p.Procs, &Proc{Names: []string{a}, T: t, Body: g.gen(ctx, t, 2)})
 			g.pop()
 			tops = append(tops, vr{a, t})
 		}
